@@ -250,7 +250,7 @@ func crashSignature(out string) string {
 		}
 		if msg != "" && strings.Contains(l, "github.com/zen-eth/shisui/") && !strings.HasPrefix(l, "\t") {
 			f := l
-			if j := strings.Index(f, "("); j > 0 {
+			if j := strings.LastIndex(f, "("); j > 0 {
 				f = f[:j]
 			}
 			f = strings.TrimPrefix(f, "github.com/zen-eth/shisui/")
@@ -551,10 +551,10 @@ func check(prop, tier string) int {
 		v := fresh[0]
 		replayPath = minimiseAndWrite(bin, prop, v.engine, v.seed, v.idx, v.v, v.crashed, tier, timeout, dir, known)
 		fmt.Printf("violation: %s clause=%s engine=%s seed=%d: %s\n", prop, v.v.Clause, v.engine, v.seed, v.v.Detail)
-		seenClause := map[string]bool{v.v.Clause: true}
+		seenSig := map[string]bool{sigOf(v.v): true}
 		for _, o := range fresh[1:] {
-			if !seenClause[o.v.Clause] {
-				seenClause[o.v.Clause] = true
+			if sg := sigOf(o.v); !seenSig[sg] && len(seenSig) < 25 {
+				seenSig[sg] = true
 				fmt.Printf("also: clause=%s engine=%s seed=%d: %s\n", o.v.Clause, o.engine, o.seed, o.v.Detail)
 			}
 		}
@@ -600,6 +600,17 @@ func check(prop, tier string) int {
 	}
 	fmt.Printf("%s %s: runs=%d distinct=%d virtual=%.0fs wall=%.1fs det=%d/%d faults=%v exit=%d\n", prop, tier, evals, len(shapes), virt, wall.Seconds(), detChecked-detMismatch, detChecked, faults, exit)
 	return exit
+}
+
+// sigOf groups violations for the summary: clause plus the detail with numbers blanked.
+var reNum = regexp.MustCompile(`[0-9a-fx#]{3,}`)
+
+func sigOf(v violation) string {
+	d := v.Detail
+	if len(d) > 160 {
+		d = d[:160]
+	}
+	return v.Clause + "|" + reNum.ReplaceAllString(d, "N")
 }
 
 // ---------- replay and minimisation ----------
